@@ -6,6 +6,7 @@ import (
 	"fmt"
 	"math/bits"
 	"math/rand"
+	"sync"
 	"time"
 
 	"github.com/enfein/mieru/v3/pkg/mathext"
@@ -112,6 +113,40 @@ func c17Case(c *Ctx) *Result {
 		}
 	}
 	res.Obs["pdep_pext_pairs"] = float64(npairs)
+	// (1') the same from several goroutines at once, each with its own masks
+	// (two sessions encoding at the same time share the routines)
+	if sig == "" {
+		var wg sync.WaitGroup
+		var cmu sync.Mutex
+		for g := 0; g < 8; g++ {
+			g := g
+			wg.Add(1)
+			go func() {
+				defer wg.Done()
+				rr := rngFor(c.Seed, "C17-conc", c.Idx, g)
+				for i := 0; i < 20000; i++ {
+					x, m := structured64(rr), structured64(rr)
+					if i%4 != 0 {
+						m = uint64(randMask(rr, byte(1+rr.Intn(4))))<<32 | uint64(randMask(rr, byte(1+rr.Intn(4))))
+					}
+					gd, wd := mathext.PDEP(x, m), refPDEP(x, m)
+					ge, we := mathext.PEXT(x, m), refPEXT(x, m)
+					if gd != wd || ge != we {
+						cmu.Lock()
+						if gd != wd {
+							fail("pdep-differs|concurrent-callers", fmt.Sprintf("PDEP(%#x,%#x)=%#x with 8 goroutines calling at once, bit loop gives %#x (bmi2=%v)", x, m, gd, wd, cpu.X86.HasBMI2))
+						} else {
+							fail("pext-differs|concurrent-callers", fmt.Sprintf("PEXT(%#x,%#x)=%#x with 8 goroutines calling at once, bit loop gives %#x (bmi2=%v)", x, m, ge, we, cpu.X86.HasBMI2))
+						}
+						cmu.Unlock()
+						return
+					}
+				}
+			}()
+		}
+		wg.Wait()
+		res.Obs["pdep_pext_pairs_concurrent"] = 160000
+	}
 	// (2) encoder/decoder against the bit-exact reference
 	ncodec := 1200
 	for i := 0; i < ncodec && sig == ""; i++ {
@@ -229,6 +264,11 @@ func c17Case(c *Ctx) *Result {
 					ext, pl = 100, uint16(refcodec.LEEncodedLen(100, mode))
 				}
 			}
+			if r.Intn(6) == 0 {
+				// the largest bodies: the encoded length reaches or passes the 16-bit field
+				ext = uint16(pick(r, 32764, 32765, 32766, 32767, 32768, 32769, 40000, 65535))
+				pl = uint16(pick(r, 0, 0, 8, 65528, 65535, refcodec.LEEncodedLen(int(ext), mm)&0xffff))
+			}
 			switch r.Intn(6) {
 			case 0:
 				mm = byte(pick(r, 0, 5, 9))
@@ -243,7 +283,7 @@ func c17Case(c *Ctx) *Result {
 			}
 			mb := metaBytes(typ, mm, pl, mk, ext, ro)
 			err := protocol.VerifDataAckUnmarshal(mb)
-			valid := refcodec.LEValidParams(mm, mk, ro) && ((ext == 0 && pl == 0) || (ext > 0 && int(pl) == refcodec.LEEncodedLen(int(ext), mm)))
+			valid := refcodec.LEValidParams(mm, mk, ro) && ((ext == 0 && pl == 0) || (ext > 0 && ext <= 32768 && int(pl) == refcodec.LEEncodedLen(int(ext), mm))) // a fragment holds at most 32768 bytes
 			res.Obs["metadata_cases"]++
 			if (err == nil) != valid {
 				fail("metadata-validation-differs", fmt.Sprintf("low entropy metadata mode %d mask %08x rot %d payloadLen %d extracted %d: accepted=%v, documented validity=%v", mm, mk, ro, pl, ext, err == nil, valid))
